@@ -473,7 +473,8 @@ def _arb(rng, family, base):
 # transformations
 # --------------------------------------------------------------------------
 ROT_CLASSES = ['identity', 'translation', 'generic', 'permutation',
-               'flip-x', 'flip-y', 'flip-z', 'quarter', 'near-axis']
+               'flip-x', 'flip-y', 'flip-z', 'quarter', 'near-axis',
+               'small-angle']
 
 
 def rotation_of_class(rng, cls):
@@ -498,6 +499,18 @@ def rotation_of_class(rng, cls):
         sgn = 1.0 if rng.random() < 0.5 else -1.0
         mat[i, j] = sgn
         mat[j, i] = -sgn
+        return mat
+    if cls == 'small-angle':
+        # a tilt of 0.03 to 0.5 degrees about a coordinate axis: an object
+        # that is almost, but not, aligned
+        ang = math.exp(rng.uniform(math.log(5e-4), math.log(8e-3))) * \
+            rng.choice([-1, 1])
+        cth, sth = math.cos(ang), math.sin(ang)
+        i, j = rng.choice([(0, 1), (1, 2), (2, 0)])
+        mat = np.eye(3)
+        mat[i, i] = mat[j, j] = cth
+        mat[i, j] = sth
+        mat[j, i] = -sth
         return mat
     if cls == 'near-axis':
         eps = 1e-12
